@@ -30,7 +30,7 @@ COMPONENTS = {"real": ["ECAgent.Batching.batch_run", "_run_model_for_batch", "_b
 PROBES = ["completion_reordered", "all_results_from_one_worker", "tie_in_finish_times", "fail_first", "fail_last",
           "max_ts_at_completion", "max_ts_below_completion", "max_ts_zero", "reps_single_combination",
           "collectors_none", "collectors_empty_list", "collectors_invalid", "parameterlist_input", "serial_order_checked",
-          "second_batch_same_process"]
+          "second_batch_same_process", "parameterlist_reused_edit_returned", "parameterlist_reused_grid_search_first"]
 TECHNIQUE = "deterministic simulation: simulated worker pool (seeded durations, tie-breaks, pickle boundary, failing executions at every position) with an exactly-once ledger and self-identifying records"
 LEVEL_TEXT = ("Seeded search over grid shapes, repetitions, step limits, collector selections and simulated pool schedules; an "
               "in-process execution ledger and self-identifying records decide exactly-once, no loss/duplication/mixing, "
@@ -141,9 +141,16 @@ def generate(rng, tier):
                   "max_ts": rng.choice([None, rng.randint(0, base_stop + spread + 2)]),
                   "collectors": {"form": "str", "names": [rng.choice(names)]} if rng.random() < 0.5 else
                   {"form": "list", "names": rng.sample(names, rng.randint(1, 3))}}
-    return {"second": second, "grid": grid, "via": rng.choice(["dict", "plist"]), "reps": reps, "max_ts": max_ts, "collectors": coll,
+    prebuild = None
+    if rng.random() < 0.25:
+        prebuild = rng.choice(["edit_returned", "grid_search_first", "build_only"])
+    return {"prebuild": prebuild, "second": second, "grid": grid, "via": rng.choice(["dict", "plist"]), "reps": reps, "max_ts": max_ts, "collectors": coll,
             "processes": procs, "base_stop": base_stop, "spread": spread, "pool": gen_pool(rng, size * reps),
             "fail": fail}
+
+
+def _zero_score(model):
+    return 0
 
 
 def as_list_total(sc):
@@ -156,6 +163,21 @@ def build_args(sc):
         raise ValueError("duplicate parameter name")
     raw = {n: decode_values(s) for n, s in sc["grid"]}
     params = B.ParameterList(raw) if sc["via"] == "plist" else raw
+    if sc.get("prebuild") and isinstance(params, B.ParameterList):
+        # the same ParameterList object has been used before this batch
+        built = params.build()
+        if sc["prebuild"] == "edit_returned":
+            for d in built:                     # the caller edits the dictionaries build() gave it
+                d["records"] = [0]
+                for k in list(d):
+                    if k != "records":
+                        d[k] = "edited"
+        elif sc["prebuild"] == "grid_search_first" and built and len(built) <= 16:
+            W.reset({"base_stop": 1, "spread": 1, "scores": {}, "collectors_defined": []})
+            try:
+                B.grid_search(W.SearchModel, params, _zero_score, max_timesteps=1)   # serial search annotates its own dicts
+            except Exception:
+                pass
     combos = [dict(zip(names, vals)) for vals in itertools.product(*[as_list(s) for _, s in sc["grid"]])]
     c = sc["collectors"]
     form = c["form"]
@@ -226,10 +248,13 @@ def one_batch(ctx, sc, fail, label):
         kwargs["max_timesteps"] = sc["max_ts"]
     old = B.Pool
     B.Pool = make_pool(sc["pool"], stats)
+    before = [(k, repr(v)) for k, v in (params._parameters if isinstance(params, B.ParameterList) else params).items()]
     try:
         st, val = ctx.call(B.batch_run, W.BatchModel, params, **kwargs)
     finally:
         B.Pool = old
+    after = [(k, repr(v)) for k, v in (params._parameters if isinstance(params, B.ParameterList) else params).items()]
+    ctx.check(after == before, "caller-parameters-modified", f"batch_run changed the caller's parameters: {after} was {before}")
     form = sc["collectors"]["form"]
     batches = stats.get("batches", [])
     comp = batches[0]["completion"] if batches else None
@@ -313,6 +338,8 @@ def execute(sc, ctx):
         ctx.probe("max_ts_zero")
     if sc["via"] == "plist":
         ctx.probe("parameterlist_input")
+        if sc.get("prebuild"):
+            ctx.probe("parameterlist_reused_" + sc["prebuild"])
     if len(combos) == 1 and reps > 1:
         ctx.probe("reps_single_combination")
     if sc["max_ts"] is not None:
